@@ -2185,6 +2185,111 @@ pub struct IdRec {
     pub ret: u64,
 }
 
+/// Evidence of the dependency's skipped-apply defect (recorded under C06: at a leader change async-raft-ext skips the
+/// entries a node had received but not yet applied) on the nodes of a C19 run: a node whose state is not what its own log
+/// yields up to its applied index - a publish it neither serves nor has in the key's history, an imported value whose key it
+/// does not serve, or a sequence whose next free id is not 1 + the lengths of the range entries it holds. Ids drawn from
+/// such a state repeat ids the skipped entries had handed out; that is not a defect of the id logic.
+async fn c19_skipped_apply_evidence(_root: &str) -> Option<String> {
+    use async_raft_ext::raft::EntryPayload;
+    use rnacos::raft::store::ClientRequest;
+    use rnacos::sequence::model::SequenceRaftReq;
+    let mut keymap: BTreeMap<String, String> = BTreeMap::new();
+    for t in 0..TENANTS.len() as u8 {
+        for g in 0..GROUPS.len() as u8 {
+            for d in 0..DATA_IDS.len() as u8 {
+                keymap.insert(cfg_key(t, g, d).build_key(), key_str(t, g, d));
+            }
+        }
+    }
+    let mut complete: Option<Vec<async_raft_ext::raft::Entry<ClientRequest>>> = None;
+    for n in live_nodes() {
+        let m = metrics(&n);
+        if let Ok(es) = n.app.raft_store.get_log_entries(1, m.last_log_index + 1).await {
+            if es.first().map(|e| e.index == 1).unwrap_or(false) && es.len() > complete.as_ref().map(|c| c.len()).unwrap_or(0) {
+                complete = Some(es);
+            }
+        }
+    }
+    for n in live_nodes() {
+        let m = metrics(&n);
+        if m.last_applied > m.last_log_index {
+            return Some(format!("node {} reports last_applied {} beyond its last log index {}", n.id, m.last_applied, m.last_log_index));
+        }
+        let es = match n.app.raft_store.get_log_entries(1, m.last_log_index + 1).await {
+            Ok(es) => es,
+            Err(_) => continue,
+        };
+        // A node whose own log is compacted is judged against the complete log of a peer (committed prefixes are equal):
+        // its own snapshot is no base, the skipped entries are missing from it as well
+        let mut seq_next: BTreeMap<String, u64> = BTreeMap::new();
+        let base_index = 0u64;
+        let es = if es.first().map(|e| e.index != 1).unwrap_or(true) {
+            match &complete {
+                Some(c) if c.last().map(|e| e.index >= m.last_applied).unwrap_or(false) => c.clone(),
+                _ => continue,
+            }
+        } else {
+            es
+        };
+        let o = match observe(&n, "skipev").await {
+            Ok(o) => o,
+            Err(_) => continue,
+        };
+        for e in es.iter().filter(|e| e.index <= m.last_applied && e.index > base_index) {
+            if let EntryPayload::Normal(nm) = &e.payload {
+                match &nm.data {
+                    ClientRequest::ConfigSet { key, value, .. } => {
+                        if let Some(ks) = keymap.get(key) {
+                            let hist = o.hist.get(ks).cloned().unwrap_or_default();
+                            let cur = o.cfg.get(ks).cloned().flatten().map(|v| v.0);
+                            if hist.len() < 100 && !hist.iter().any(|h| &h.1 == value.as_ref()) && cur.as_deref() != Some(value.as_str()) {
+                                return Some(format!("node {} holds the publish of {} to {} at log index {} (term {}), at or below its applied index {}, but neither serves it nor has it in the key's history", n.id, trunc(value), ks, e.index, e.term, m.last_applied));
+                            }
+                        }
+                    }
+                    ClientRequest::ConfigFullValue { key, .. } => {
+                        let k = String::from_utf8_lossy(key).to_string();
+                        if let Some(ks) = keymap.get(&k) {
+                            if o.cfg.get(ks).cloned().flatten().is_none() {
+                                return Some(format!("node {} holds the imported value of {} at log index {} (term {}), at or below its applied index {}, but does not serve the key", n.id, ks, e.index, e.term, m.last_applied));
+                            }
+                        }
+                    }
+                    ClientRequest::SequenceReq { req } => match req {
+                        SequenceRaftReq::NextRange(k, len) => *seq_next.entry(k.as_ref().clone()).or_insert(1) += *len,
+                        SequenceRaftReq::NextId(k) => *seq_next.entry(k.as_ref().clone()).or_insert(1) += 1,
+                        SequenceRaftReq::SetId(k, v) => {
+                            seq_next.insert(k.as_ref().clone(), *v);
+                        }
+                        _ => {}
+                    },
+                    _ => {}
+                }
+            }
+        }
+        if std::env::var("RNSIM_C19_DEBUG").is_ok() {
+            eprintln!("dbg n{} applied={} log={}..{} base={} fold={:?} state={:?}", n.id, m.last_applied, es.first().map(|e| e.index).unwrap_or(0), m.last_log_index, base_index, seq_next, o.records.iter().filter(|r| r.0 == "T_SEQUENCE").map(|r| (String::from_utf8_lossy(&r.1).to_string(), r.2.iter().fold(0u64, |a, b| (a << 8) | *b as u64))).collect::<Vec<_>>());
+            for e in es.iter() {
+                if let EntryPayload::Normal(nm) = &e.payload {
+                    if let ClientRequest::SequenceReq { req } = &nm.data {
+                        eprintln!("dbg   n{} entry {} t{} {:?}", n.id, e.index, e.term, req);
+                    }
+                }
+            }
+        }
+        for (k, want) in &seq_next {
+            let have = o.records.iter().find(|r| r.0 == "T_SEQUENCE" && r.1 == k.as_bytes()).map(|r| r.2.iter().fold(0u64, |a, b| (a << 8) | *b as u64));
+            if let Some(have) = have {
+                if have < *want {
+                    return Some(format!("node {}: the range entries for sequence {} in its log up to its applied index {} add up to a next free id of {}, its state says {}", n.id, k, m.last_applied, want, have));
+                }
+            }
+        }
+    }
+    None
+}
+
 pub async fn exec_c19(script: Value) -> ExecResult {
     use std::cell::RefCell;
     use std::rc::Rc as LRc;
@@ -2238,6 +2343,7 @@ pub async fn exec_c19(script: Value) -> ExecResult {
                 }
             });
         }
+        let mut had_election = false;
         let mut m = WModel::default();
         let mut handles = vec![];
         let paced = script["paced"].as_bool().unwrap_or(false);
@@ -2362,6 +2468,92 @@ pub async fn exec_c19(script: Value) -> ExecResult {
                     let _ = wait_leader(&n, 20_000).await;
                     sim::count("probe.node_restarted", 1);
                 }
+                WStep::LeaderHandover { during, after, back } => {
+                    if nodes < 3 {
+                        continue;
+                    }
+                    let all: Vec<u64> = (1..=nodes).collect();
+                    // the cut is placed at a quiet moment: every request of the earlier steps has been answered and applied
+                    // everywhere (entries in flight at a leader change are what the dependency's skipped-apply defect loses)
+                    for h in handles.drain(..) {
+                        let _ = h.await;
+                    }
+                    settle().await;
+                    advance(1_500).await;
+                    let l1 = match majority_leader() {
+                        Some(l) => l,
+                        None => continue,
+                    };
+                    let pubs = |nid: u64, j: u8| WStep::CfgSet { node: nid, t: 1, g: 0, d: (j % 3), size: 10, same: false, typ: 0, desc: 0 };
+                    // The node that formed the cluster commits alone while it is cut off (recorded dependency defect, C06
+                    // formation_leader_commits_without_quorum: async-raft-ext keeps the nodes it promoted out of its replication
+                    // targets for the whole of its first leadership). Its first leadership is ended quietly - no client talks to
+                    // it while it is cut off - and the hand-over under load starts from a leader that was elected.
+                    let mut l1 = l1;
+                    if !had_election {
+                        isolate(l1, &all);
+                        let other = all.iter().cloned().find(|x| *x != l1).unwrap_or(1);
+                        for _ in 0..20 {
+                            advance(1_000).await;
+                            if node(other).map(|o| metrics(&o).current_leader.map(|l| l != l1).unwrap_or(false)).unwrap_or(false) {
+                                break;
+                            }
+                        }
+                        heal_all();
+                        advance(6_000).await;
+                        had_election = true;
+                        sim::count("probe.first_leadership_ended_quietly", 1);
+                        l1 = match majority_leader() {
+                            Some(l) => l,
+                            None => continue,
+                        };
+                    }
+                    let applied_before = node(l1).map(|t| metrics(&t).last_applied).unwrap_or(0);
+                    isolate(l1, &all);
+                    sim::count("fault.isolate_leader", 1);
+                    if let Some(t) = node(l1) {
+                        for j in 0..*during {
+                            let _ = do_step(&t, &pubs(l1, j), &mut m, 1_500).await;
+                        }
+                    }
+                    if node(l1).map(|t| metrics(&t).last_applied).unwrap_or(0) > applied_before {
+                        vfail!(&format!("{}.cut_off_leader_applied_entries", id), "node {} (an elected leader, cut off from both other nodes) applied entries {}..{} while it was cut off", l1, applied_before + 1, node(l1).map(|t| metrics(&t).last_applied).unwrap_or(0));
+                    }
+                    // the others elect a leader and serve clients
+                    let other = all.iter().cloned().find(|x| *x != l1).unwrap_or(1);
+                    for _ in 0..20 {
+                        advance(1_000).await;
+                        if node(other).map(|o| metrics(&o).current_leader.map(|l| l != l1).unwrap_or(false)).unwrap_or(false) {
+                            break;
+                        }
+                    }
+                    if let Some(t) = node(other) {
+                        for j in 0..*after {
+                            let _ = do_step(&t, &pubs(other, j), &mut m, 10_000).await;
+                        }
+                    }
+                    heal_all();
+                    advance(6_000).await;
+                    if *back > 0 {
+                        if let Some(l2) = majority_leader() {
+                            isolate(l2, &all);
+                            sim::count("fault.isolate_leader", 1);
+                            advance(10_000).await;
+                            let via = all.iter().cloned().find(|x| *x != l2 && (*x == l1 || l1 == l2)).unwrap_or(other);
+                            if let Some(t) = node(via) {
+                                for j in 0..*back {
+                                    let _ = do_step(&t, &pubs(via, j), &mut m, 10_000).await;
+                                }
+                                if metrics(&t).current_leader == Some(l1) && l1 != l2 {
+                                    sim::count("probe.first_leader_leads_again", 1);
+                                }
+                            }
+                            heal_all();
+                            advance(6_000).await;
+                        }
+                    }
+                    sim::count("probe.leader_handover", 1);
+                }
                 WStep::Advance { ms } => advance(*ms).await,
                 other => {
                     // an import runs on the leader (TransferImportManager writes with raft.client_write, which a follower refuses)
@@ -2378,6 +2570,19 @@ pub async fn exec_c19(script: Value) -> ExecResult {
         settle().await;
         advance(3_000).await;
         let recs = recs.borrow().clone();
+        // leader changes run into the dependency's skipped-apply defect; looked for once, by evidence in the nodes
+        let skip_ev: Option<String> = if nodes > 1 && sim::counter("probe.leader_handover") > 0 { c19_skipped_apply_evidence(&root).await } else { None };
+        macro_rules! c19fail {
+            ($clause:expr, $($arg:tt)*) => {{
+                let msg = format!($($arg)*);
+                if let Some(ev) = &skip_ev {
+                    sim::count("probe.entry_skipped_at_leader_change", 1);
+                    findings.push(Violation::new(&format!("{}.entry_skipped_at_leader_change", id), format!("{}; ids were drawn from a state that lacks entries skipped at a leader change: {}", msg, ev)));
+                    return Ok(());
+                }
+                vfail!(&format!("{}.{}", id, $clause), "{}", msg);
+            }};
+        }
         // uniqueness per key over everything any node ever returned
         for key in 0..3u8 {
             let mut seen: BTreeMap<u64, (u64, u64)> = BTreeMap::new();
@@ -2394,7 +2599,7 @@ pub async fn exec_c19(script: Value) -> ExecResult {
                             }
                             return Ok(());
                         }
-                        vfail!(&format!("{}.duplicate_id", id), "{}", msg);
+                        c19fail!("duplicate_id", "{}", msg);
                     }
                 }
             }
@@ -2495,7 +2700,7 @@ pub async fn exec_c19(script: Value) -> ExecResult {
                                     }
                                     continue;
                                 }
-                                vfail!(&format!("{}.went_backwards", id), "sequence seq{} on node {}: a request that returned at event {} got ids up to {}, a later request (invoked at {}) got ids from {} (all requests of this node on the key, kind[first..last]@invoke-return: {})", key, a.node, a.ret, ma, b.invoke, mb, all.join(" "));
+                                c19fail!("went_backwards", "sequence seq{} on node {}: a request that returned at event {} got ids up to {}, a later request (invoked at {}) got ids from {} (all requests of this node on the key, kind[first..last]@invoke-return: {})", key, a.node, a.ret, ma, b.invoke, mb, all.join(" "));
                             }
                         }
                     }
@@ -2516,7 +2721,7 @@ pub async fn exec_c19(script: Value) -> ExecResult {
                                 findings.push(Violation::new(&format!("{}.duplicate_after_kill_restart", id), format!("node {}: history id {} is stamped on two different entries ({} and {}); the run contains {} kill -9 restart(s)", n.id, hid, k2, k, sim::counter("fault.kill"))));
                             }
                         } else if k2 != k || c2 != content {
-                            vfail!(&format!("{}.history_id_reused", id), "node {}: history id {} is stamped on two different entries: {} / {} and {} / {}", n.id, hid, k2, trunc(c2), k, trunc(content));
+                            c19fail!("history_id_reused", "node {}: history id {} is stamped on two different entries: {} / {} and {} / {}", n.id, hid, k2, trunc(c2), k, trunc(content));
                         } else {
                             // same entry twice: signature of the recorded defect "replay applies entries already in the snapshot" (see C01)
                             if findings.is_empty() {
@@ -2533,7 +2738,9 @@ pub async fn exec_c19(script: Value) -> ExecResult {
                                     findings.push(Violation::new(&format!("{}.duplicate_after_kill_restart", id), format!("node {}: key {} history ids (newest first) not decreasing: {} then {}; the run contains {} kill -9 restart(s) ({} issued-but-uncompleted file writes discarded)", n.id, k, p, hid, sim::counter("fault.kill"), sim::counter("disk.lost_on_crash"))));
                                 }
                             } else {
-                                vensure!(p > *hid, &format!("{}.history_order", id), "node {}: key {} history ids (newest first) not decreasing: {} then {}", n.id, k, p, hid);
+                                if p <= *hid {
+                                    c19fail!("history_order", "node {}: key {} history ids (newest first) not decreasing: {} then {}", n.id, k, p, hid);
+                                }
                             }
                         }
                     }
@@ -2594,6 +2801,15 @@ impl Check for C19 {
                 WStep::Advance { ms: *rng.pick(&[50u64, 600, 3000]) }
             };
             steps.push(st);
+        }
+        // half of the 3-node runs: a leader change under client load, and back (history ids of three leaderships)
+        let mut rh = Rng::derive(seed, "C19.handover", 0);
+        if cfg.nodes == 3 && rh.chance(0.5) {
+            // (no compaction in these runs: the nodes' complete logs are the evidence that tells the dependency's
+            // skipped-apply defect at a leader change apart from a defect of the id logic)
+            cfg.node.snapshot_log_size = 10_000;
+            let at = rh.below(steps.len() as u64 + 1) as usize;
+            steps.insert(at, WStep::LeaderHandover { during: *rh.pick(&[1u8, 2, 4]), after: *rh.pick(&[2u8, 5, 8]), back: *rh.pick(&[0u8, 3, 6]) });
         }
         json!({"check": "C19", "seed": seed, "cfg": cfg, "paced": paced, "steps": steps})
     }
